@@ -32,6 +32,9 @@ inductive Sync | none | mutex | syncMap | syncMapCasNil | syncMapLoad | once | n
   | mutexIfAbsent   -- under a mutex, `M[k] = v` only in the absent-branch of a lookup of M[k]: load-or-publish, FIRST writer wins
   | syncMapLoadOrStore   -- sync.Map.LoadOrStore: publishes only when absent, the first writer wins (plain `syncMap`:
                          -- Store / Swap / Delete …, unconditional, the LAST writer wins)
+  | payloadEscape   -- `C[k] = e`: an `any`-typed value taken out of the shared document (default / example / enum / extension),
+                    -- not copied, is stored into a caller-owned value: what the call later writes into that value is
+                    -- written into the document (F-C15-1 before its repair: `value[propName] = dflt`)
   | appendSpare     -- `append(s, …)` on a slice reachable from shared state: a PLAIN WRITE into the shared backing array whenever cap s > len s
   | appendClipped   -- `append(s[:n:n], …)` / `append(slices.Clip(s), …)`: cap = len, append reallocates, nothing shared is written
   deriving DecidableEq, Repr
@@ -495,7 +498,7 @@ theorem proj_drop_junk (F : List Cell) (i : Nat) : ∀ tr : Trace, proj i (tr.fi
 /-! ## reading the generated table -/
 
 inductive RowClass | cache | cacheLoad | inertCas | lazyDecl | lazyCtor | outParam | plain | unread | appendSpare | appendClipped
-  | cacheFirstWins | lastWriterWins
+  | cacheFirstWins | lastWriterWins | payloadEscape
   deriving DecidableEq, Repr
 
 /-- entry points whose reference parameters are caller-owned, per-call output (`schemas` of
@@ -517,6 +520,7 @@ def rowClass : SharedWrite → RowClass
     | .syncMapCasNil => .inertCas    -- `CompareAndSwap(k, nil, v)`: stores nothing for an absent key
     | .nilGuardInit => .lazyDecl
     | .nilGuardCtor => .lazyCtor
+    | .payloadEscape => .payloadEscape
     | .appendSpare => .appendSpare   -- aliasing through spare capacity: see `appendActs`
     | .appendClipped => .appendClipped
     | _ => if root = .param && outParamEntries.contains via then .outParam else .plain
@@ -525,7 +529,8 @@ def rowClass : SharedWrite → RowClass
     initialised (by its declaration / by the constructor), or per-call output; an `append` to a shared slice
     only when the slice is clipped to its length -/
 def rowOK (w : SharedWrite) : Bool :=
-  rowClass w != .plain && rowClass w != .unread && rowClass w != .appendSpare && rowClass w != .lastWriterWins
+  rowClass w != .plain && rowClass w != .unread && rowClass w != .appendSpare && rowClass w != .lastWriterWins &&
+  rowClass w != .payloadEscape
 
 def rowGlobal : SharedWrite → Option String
   | .write _ _ _ _ root _ g _ => if root = .global || root = .viaGlobal then some g else none
